@@ -71,7 +71,7 @@ fn collect<E: EndianParse>(it: NoteIterator<'_, E>, base: &[u8], cap: usize) -> 
 /// Iterator-adaptor histories on a fresh iterator: j x next(), then nth(k) / last() / count().
 /// Returns, per (j, k), the item nth(k) produced, plus last() and count() after j steps.
 #[allow(clippy::type_complexity)]
-fn adaptor_histories<'a, E: EndianParse>(mk: &dyn Fn() -> NoteIterator<'a, E>, base: &[u8], n: usize) -> Vec<(usize, Vec<Option<Got>>, Option<Got>, usize, Option<Got>)> {
+fn adaptor_histories<'a, E: EndianParse + std::fmt::Debug>(mk: &dyn Fn() -> NoteIterator<'a, E>, base: &[u8], n: usize) -> Vec<(usize, Vec<Option<Got>>, Option<Got>, usize, Option<Got>)> {
     let mut v = Vec::new();
     for j in 0..=n {
         let mut nths = Vec::new();
@@ -100,6 +100,16 @@ fn adaptor_histories<'a, E: EndianParse>(mk: &dyn Fn() -> NoteIterator<'a, E>, b
         let count = it.take(base.len() + 2).count();
         let mut it = mk();
         let skipped = it.by_ref().skip(j).next().map(|x| to_got(x, base));
+        // Debug of an iterator in any state (also exhausted, with its cursor beyond the data) is total
+        {
+            let mut it = mk();
+            for _ in 0..j + 2 {
+                it.next();
+            }
+            let _ = crate::alloc::outside(|| 0);
+            let text = format!("{:?}", it);
+            std::hint::black_box(text.len());
+        }
         v.push((j, nths, last, count, skipped));
     }
     v
@@ -281,6 +291,18 @@ impl Space for Sequences {
                         let cap = data.len() + 2;
                         let got = subject(|| collect(NoteIterator::new(e, class, align, data), data, cap));
                         yielded += compare("NoteIterator", data, enc.order, align, got, out, &mut dig);
+                        // Debug of the exhausted iterator (its cursor may lie beyond a cut-off tail) is total
+                        if let Err(m) = subject(|| {
+                            let mut it = NoteIterator::new(e, class, align, data);
+                            let mut k = 0;
+                            while it.next().is_some() && k < cap {
+                                k += 1;
+                            }
+                            it.next();
+                            format!("{:?}", it).len()
+                        }) {
+                            out.violate(format!("panic:Debug for NoteIterator in {}", panic_site(&m)), format!("align {align} data {}: {m}", hex(data)));
+                        }
                         if vi < 2 || (vi == 2 && data.len() == variants[0].len()) {
                             // nth / skip / last / count from every cursor position must walk the same records
                             let want = expect(data, enc.order, align);
@@ -400,6 +422,11 @@ impl Space for ThroughFile {
             }
         }
         let mut spec = Spec::new(enc, TableOrder::TablesFirst);
+        // the header names a different platform from case to case (file type x machine x OS ABI):
+        // note parsing has no platform-specific exception
+        spec.e_type = [3u16, 4, 1, 2][((d[2] + d[3]) % 4) as usize];
+        spec.e_machine = crate::skeleton::QUIRK_MACHINES[((d[2] * 3 + d[3]) % 14) as usize].0;
+        spec.osabi = [0u8, 3, 13, 9, 6, 97, 255][((d[2] + 2 * d[3]) % 7) as usize];
         spec.secs = vec![Sec::new(b".note.x", SHT_NOTE, body.clone()).addralign(align as u64)];
         // p_memsz differs from p_filesz (below it for even cases, as in core files; above it otherwise)
         spec.segs = vec![Seg { p_type: PT_NOTE, flags: 4, vaddr: 0, paddr: 0, align: align as u64, memsz_extra: if idx % 2 == 0 { 0u64.wrapping_sub(5) } else { 9 }, target: SegTarget::Section(1) }];
